@@ -315,6 +315,26 @@ for i in range(25 * SCALE):
             if v1 != v2 or v1 != "ok":
                 violation("skr", f"validation verdict differs or honest SKR refused: {v1} / {v2}", doc)
 
+# ---- 3b. an SKR with one signature that does not verify, in a bundle other than the first: refused whatever the order of the bundles in the document
+import copy as _copy
+for i in range(6 * SCALE):
+    nb = R.randrange(2, 6)
+    rq = skrgen.honest_request(f"skr-bad-{i}", NOW + D(days=3), nb, [[R.choice(RSAK)] for _ in range(nb)], ksrxml.default_zsk_policy(), sign=False)
+    skr = skrgen.simulate_skr(rq, {j: {"publish": ["ksk_current"], "sign": ["ksk_current"], "revoke": []} for j in range(1, nb + 1)}, KS, ksrxml.default_zsk_policy())
+    bad = {**skr, "bundles": [dict(b, sigs=[dict(s_) for s_ in b["sigs"]]) for b in skr["bundles"]]}
+    jb = R.randrange(1, nb)
+    sd_ = bytearray(bad["bundles"][jb]["sigs"][0]["data"]); sd_[R.randrange(len(sd_))] ^= 0x20
+    bad["bundles"][jb]["sigs"][0]["data"] = bytes(sd_)
+    tree_b = ksrxml.skr_tree(bad)
+    for variant in range(4):
+        doc = ksrxml.render_tree(tree_b, R, permute=variant > 0)
+        count("skr-bad-signature-any-order")
+        n_docs += 1
+        r = vlib.run_impl(response_from_xml, doc)
+        if r[0] == "ok" and vlib.run_impl(validate_response, r[1], ResponsePolicy(num_bundles=nb))[0] == "ok":
+            violation("skr-bad-signature-any-order", f"an SKR whose bundle {jb + 1} of {nb} carries a signature that does not verify passes response validation"
+                      f" ({'canonical' if variant == 0 else 'permuted'} document order)", doc)
+
 # ---- 4. prolog containing the literal '<KSR' (known finding: not ignored)
 doc = '<?xml version="1.0"?>\n<!-- a <KSR id="x"> element follows -->\n' + ksrxml.render_tree(ksrxml.ksr_tree(gen_request(nb=1)))
 n_docs += 1
@@ -366,8 +386,30 @@ for i in range(120 * SCALE):
     meta.append({"kind": "model-function-level", "desc": {"s": s[:200]}, "spec_ok": True, "spec_msg": "", "key": None})
     count("model-function-level")
 
+# timestamps: kskm's reader against Model.Datetime.read_utc on the notations KSR/SKR files use, each read under another process time zone
+from kskm.common.parse_utils import parse_datetime as _kskm_parse_datetime
+_EPOCH = dt.datetime(1970, 1, 1, tzinfo=dt.timezone.utc)
+_special = [dt.datetime(1000, 1, 1, tzinfo=dt.timezone.utc), dt.datetime(9999, 12, 31, 23, 59, 59, tzinfo=dt.timezone.utc), dt.datetime(2024, 2, 29, 12, 0, 0, tzinfo=dt.timezone.utc),
+            dt.datetime(2100, 2, 28, 23, 59, 59, tzinfo=dt.timezone.utc), dt.datetime(2000, 2, 29, tzinfo=dt.timezone.utc), dt.datetime(1969, 12, 31, 23, 59, 59, tzinfo=dt.timezone.utc),
+            dt.datetime(2038, 1, 19, 3, 14, 8, tzinfo=dt.timezone.utc), dt.datetime(2026, 3, 29, 1, 30, 0, tzinfo=dt.timezone.utc), dt.datetime(2026, 11, 1, 8, 30, 0, tzinfo=dt.timezone.utc)]
+_ZONES = [None, "JST-9", "PST8PDT,M3.2.0,M11.1.0", "IST-5:30", "UTC", "CET-1CEST,M3.5.0,M10.5.0/3"]
+for i in range(60 * SCALE + len(_special)):
+    inst = _special[i] if i < len(_special) else _EPOCH + D(seconds=R.randrange(-30610224000, 253402300799))
+    secs = (inst - _EPOCH) // D(seconds=1)
+    body = inst.strftime("%Y-%m-%dT%H:%M:%S") if inst.year >= 1000 else None
+    for sfx in ("", "Z", "+00:00", "+01:00", "-08:00"):
+        text_ = body + sfx
+        with ksrxml.process_zone(_ZONES[(i + len(sfx)) % len(_ZONES)], ""):
+            r_ = vlib.run_impl(_kskm_parse_datetime, text_)
+            got = (r_[1] - _EPOCH) // D(seconds=1) if r_[0] == "ok" else None
+        want = secs if sfx in ("", "Z", "+00:00") else None
+        cases.append(f"CStamp {vlib.txt(text_)} {'None' if got is None else '(Some (' + str(got) + '))'}")
+        meta.append({"kind": "timestamp-notation", "desc": {"text": text_, "TZ": _ZONES[(i + len(sfx)) % len(_ZONES)] or "(unset)", "read_as": got}, "spec_ok": got == want,
+                     "spec_msg": f"timestamp {text_!r} read with TZ={_ZONES[(i + len(sfx)) % len(_ZONES)]} as {got} s since the epoch; the document states {want}", "key": None})
+        count("timestamp-notation")
+
 ok_build, log = vlib.make(["Checks/XmlCheck.vo"])
-runner = vlib.CaseRun("C12", "xml", "From KV Require Import Base.Prelude Base.Exn Model.Data Model.Xml Model.XmlTree Checks.XmlCheck.", "case", "check", shard=40)
+runner = vlib.CaseRun("C12", "xml", "From KV Require Import Base.Prelude Base.Exn Model.Data Model.Datetime Model.Xml Model.XmlTree Checks.XmlCheck.", "case", "check", shard=40)
 results = runner.run(cases) if ok_build else [-1] * len(cases)
 vlib.classify(rep, props, meta, results, cases, runner, "Checks.XmlCheck.check (xml_parser vs Model.Xml)")
 runner.cleanup()
